@@ -168,6 +168,15 @@ def run(ctx: Ctx):
     logicobl.decide_rows(ctx, cats, THMS, extra_modules=['Ptx.Props.C05'])
     n = ident_oracle(ctx, data)
     n += mapping_oracle(ctx, data)
+    # equal literals need not be the same objects: the closure / read tables and the identity closers extracted with the
+    # lexical item cache off (every construction a new object) must be what they are with the cache on
+    off = [(lg, k, det) for lg, k, det in logicobl.cache_off_diff() if k in ('closure', 'reads', 'ident', 'missing')]
+    for lg, k, det in off:
+        ctx.fail(f'C05:cache-off:{lg}:{k}', f'{lg}: with ITEM_CACHE_SIZE=0 (equal sentences / constants are distinct objects) the extracted {k} '
+                 f'differs from the default one: {det[:400]}', dict(logic=lg, field=k, env=dict(ITEM_CACHE_SIZE='0'), detail=det,
+                 how='python -m harness.extract.gen under ITEM_CACHE_SIZE=0 vs default'), found_input=True)
+    ctx.add_cov(cache_off_extraction='closure / reads / ident of all logics re-extracted with ITEM_CACHE_SIZE=0 and compared', cache_off_differences=len(off))
+    n += len(data)
     rows = 0
     for lg, d in data.items():
         if 'fatal' in d:
